@@ -136,7 +136,9 @@ func lemmaBackoffMono(T, i, j int) {
 //@   loop 0 invariant[time] t0 <= now() && now() <= t0 + int(timeout)
 //@   loop 0 invariant[sent] sends() == s0 + 1 && sentAt() == t0 && len(lastSent()) >= 4 && lastSent()[0:1] == specByte(MT) && lastSent()[1:4] == X && lastSentTo() == net.Addr(dest) && !old(has(c.pending, msg.TransactionID))
 
-// SendAndRead: the internal deadline error never reaches the caller; with n = c.retry >= 0 tries the call ends no later
+// SendAndRead (verified with the body of retryFn executed in place, its loop cut by retryFn's own invariants, and the
+// call of the try dispatched to the closure's contract): the internal deadline error never reaches the caller; a
+// response is returned only if the matcher (if any) accepted it; with n = c.retry >= 0 tries the call ends no later
 // than T*(2^n - 1) after it began, having transmitted at most n times
 //@ contract (*Client).SendAndRead
 //@   requires c != nil && c.conn != nil && c.logger != nil && c.pending != nil && ctx != nil && pktOK(msg) && int(c.timeout) >= 0
@@ -144,8 +146,10 @@ func lemmaBackoffMono(T, i, j int) {
 //@   let N = c.retry
 //@   let t0 = now()
 //@   let s0 = sends()
-//@   modifies *
+//@   inlines (*Client).retryFn
+//@   modifies c.pending
 //@   ensures[hidden] err != errDeadlineExceeded
+//@   ensures[matched] err == nil ==> match == nil || specMatch(match, result0)
 //@   ensures[bound] N >= 0 ==> now() <= t0 + specBackoff(T, N) - T && sends() <= s0 + N
 //@   ensures[result] (err == nil) ==> sends() >= s0 + 1
 
